@@ -106,6 +106,12 @@ static void run_cmd(kdump_ctx_t *ctx, char *line)
 		at.type = KDUMP_NUMBER; at.val.number = a;
 		st = kdump_set_attr(ctx, key, &at);
 		printf("> set %s%s\n", kstatus_name(st), c16_monitor(ctx, st));
+	} else if (!strncmp(line, "setstr ", 7)) {
+		char val[256]; kdump_attr_t at; kdump_status st;
+		if (sscanf(line, "setstr %255s %255s", key, val) != 2) { puts("> bad-op"); return; }
+		at.type = KDUMP_STRING; at.val.string = val;
+		st = kdump_set_attr(ctx, key, &at);
+		printf("> set %s%s\n", kstatus_name(st), c16_monitor(ctx, st));
 	} else if (sscanf(line, "probe %u %" SCNu64 " %u", &as, &a, &ps) == 3) {
 		size_t n = ps, i; unsigned char *buf = malloc(n);
 		kdump_status st = kdump_read(ctx, as, a, buf, &n);
